@@ -320,6 +320,17 @@ let run (cmd : string) (a : v) : v =
                                  L [vnat g; vlist vnat m.t_shape; vnat m.t_dtype; vnat m.t_device; vbool m.t_contig]) ]) e'.fparams;
           vlist vnat e'.fbuffers;
           vlist (fun p -> vbool (touched p)) e.fparams ]
+  | "neox_precondition", L [S par; I mm; I m; I n; I hb; qg; dg; qa; da; lam; L wgs; L bgs; I primary] ->
+      (* returns, for every model-parallel rank j, its shard of the preconditioned gradient *)
+      let par = (match par with "input" -> ParInput | _ -> ParOutput) in
+      let wga = Array.of_list (List.map mat_of wgs) and bga = Array.of_list (List.map vec_of bgs) in
+      let wg j = let j = int_of_nat j in if j < Array.length wga then wga.(j) else (fun _ _ -> 0.0) in
+      let bg j = let j = int_of_nat j in if j < Array.length bga then bga.(j) else (fun _ -> 0.0) in
+      let rows, cols = (match par with ParInput -> m, n / mm + (if hb <> 0 then 1 else 0) | ParOutput -> m / mm, n + (if hb <> 0 then 1 else 0)) in
+      L (List.map (fun j ->
+           vmat rows cols (neox_precondition fops par (nat_of_int mm) (nat_of_int m) (nat_of_int n) (hb <> 0)
+                             (mat_of qg) (clamp fops (vec_of dg)) (mat_of qa) (clamp fops (vec_of da)) (getf lam) wg bg (nat_of_int primary) (nat_of_int j)))
+         (range mm))
   | _ -> failwith ("unknown command or bad argument: " ^ cmd)
 
 let () =
